@@ -329,7 +329,7 @@ def euler_rotation_order(arg: Optional[str] = None, ndim: int = 3) -> str:
         raise NotImplementedError(f"euler_rotation_order() ndim={ndim}")
     order = "ZXZ" if arg is None else arg
     if re.match(r"^(R[xyz]|[XYZ])( o (R[xyz]|[XYZ]))*$", order):
-        order = re.subn(r"R([xyz])", "\\1", order).replace(" o ", "")
+        order = re.sub(r"R([xyz])", "\\1", order).replace(" o ", "")
     order = order.upper()
     if not re.match("^[XYZ][XYZ][XYZ]$", order):
         raise ValueError(f"euler_rotation_order() invalid argument '{arg}'")
